@@ -173,7 +173,10 @@ class C15(Prop):
                                                         "date": "20160101", "type": ct, "respin": respin}}
         for s in ("", "20160101", "f-23-20160101", "f-23-20160101.n", "f-23-20160101.0", "f-23-20160101.n.0", "f-23-20160101.nightly.5",
                   "f-23-20160101.test", "f-23-20160101.N.1", "f-23-20160101.n1", "f-23-20160101..1", "f-23-20160101.n..1", "201601011",
-                  "f-23-20160101.n.12345678", "1234567", "f-23-20160101.t.1\n", "\n20160101"):
+                  "f-23-20160101.n.12345678", "1234567", "f-23-20160101.t.1\n", "\n20160101",
+                  # suffixes that are not lower-case letters are outside the pattern's type group: not rejected but read as
+                  # production with respin 0 (recorded in the distribution as an observation; exact behaviour: C15_decoder_exact)
+                  "f-23-20160101.X.1", "f-23-20160101.Nightly.2", "f-23-20160101.n1.3", "f-23-20160101.n_x.4"):
             yield {"op": "decode", "args": {"s": s}}
         for i in range(budget):
             k = i % 6          # three streams, each with its own running index (round-robin over the tables inside)
@@ -306,6 +309,10 @@ class C15(Prop):
         op = case["op"]; a = case["args"]
         inc(op)
         if op == "decode":
+            import re as _re
+            mm = _re.search(r"\d{8}\.([A-Za-z_0-9]*[A-Z_][A-Za-z_0-9]*|[a-z]+[0-9_][a-z0-9_]*)\.(\d+)$", decode_string(a))
+            if mm and "ok" in real_out and real_out["ok"][1:] == ["production", 0]:
+                inc("observation:non-lowercase suffix read as production, respin dropped")
             inc("decode:" + ("ok" if "ok" in real_out and real_out["ok"] != [None, None, None] else "none" if "ok" in real_out else real_out["err"]))
             return
         inc("ctype:%s" % a["type"])
